@@ -223,7 +223,7 @@ def snmpagent_sysinfo_version(rule, key, diff, hw, **_):
             yield (True, "snmp-agent sys-info version all", None)
         else:
             yield (False, "snmp-agent sys-info version all disable", None)
-            yield (True, "snmp-agent sys-info version %s" % (" ".join(result)), None)
+            yield (True, "snmp-agent sys-info version %s" % (" ".join(sorted(result))), None)
     else:
         yield from common.default(rule, key, diff)
 
